@@ -112,6 +112,16 @@ func trimmedByteIsSlash(p *Prog, r *Report) {
 				cmps := map[*ssa.BinOp]bool{}
 				flagComparisons(arg, cmps, map[ssa.Value]bool{}, 8)
 				slash, other := 0, []string{}
+				// bytes.HasSuffix(path, "/") says the same as the byte comparison
+				if cv, isCall := arg.(*ssa.Call); isCall {
+					if f := cv.Call.StaticCallee(); f != nil && f.Pkg != nil && f.Pkg.Pkg.Path() == "bytes" && f.Name() == "HasSuffix" && len(cv.Call.Args) == 2 {
+						if g := globalOf(cv.Call.Args[1]); g != "" && globalBytesValueByName(p, g) == "/" {
+							slash++
+						} else {
+							other = append(other, "suffix test against something other than \"/\" at "+p.Pos(cv.Pos()))
+						}
+					}
+				}
 				for cmp := range cmps {
 					for _, pair := range [][2]ssa.Value{{cmp.X, cmp.Y}, {cmp.Y, cmp.X}} {
 						k, isC := constInt(pair[1])
@@ -382,4 +392,13 @@ func runC23(p *Prog, r *Report) {
 	} else {
 		r.Undecided("R4", "normalizePath", "not found")
 	}
+}
+
+func globalBytesValueByName(p *Prog, name string) string {
+	for _, m := range p.Root().Members {
+		if g, ok := m.(*ssa.Global); ok && g.Name() == name {
+			return globalBytesValue(p, g)
+		}
+	}
+	return ""
 }
